@@ -110,6 +110,8 @@ def run(idx: ProgramIndex, rep: Report, tier: str):
                 continue
             if isinstance(ret, ast.Name) and ret.id == fi.params[0]:
                 continue  # identity return (`other == 1`, `other == 0`)
+            from ..symbolic import expand_hook
+            ret = expand_hook(M, ret)
             if isinstance(ret, ast.Call) and src(ret.func) in ("%s.__class__" % fi.params[0], "MultivariateNormal", "type(%s)" % fi.params[0]):
                 n += 1
                 me, ce = _ctor_args(ret)
